@@ -157,9 +157,21 @@ func (w *c19world) target(g *zsim.Stream, f *zsim.Stream) *c19target {
 		// exactly the URL's (unescaped) path is opened
 		t.file = filepath.Join(w.dir, name+" a+b.log")
 		t.raw = "file://" + filepath.Join(w.dir, name+"%20a+b.log")
+		if g.Chance(2) {
+			// characters at the very end of the path belong to the name like any
+			// others: a line ending, a blank, a dot
+			tail := [][2]string{{"\n", "%0A"}, {"\r", "%0D"}, {"\r\n", "%0D%0A"}, {" ", "%20"}, {"\t", "%09"}, {".", "."}, {"\n\n", "%0a%0A"}}[g.Draw(7)]
+			t.file = filepath.Join(w.dir, name+".log") + tail[0]
+			t.raw = pick(g, "file://", "file://localhost") + filepath.Join(w.dir, name+".log") + tail[1]
+			w.c.R.Probe("file URL whose path ends in an escaped line ending, blank or dot")
+		}
 		t.ok = true
 	case tkBarePath:
 		t.file = filepath.Join(w.dir, name+".log")
+		if g.Chance(6) {
+			t.file += pick(g, "\n", " ", "\r\n") // still a file name
+			w.c.R.Probe("bare path ending in a line ending or blank")
+		}
 		t.raw = t.file
 		t.ok = true
 	case tkRelPath:
